@@ -823,6 +823,10 @@ func runC17(c *Ctx) {
 			for _, in := range b.Instrs {
 				if call, ok := in.(*ssa.Call); ok {
 					if bi, isB := call.Call.Value.(*ssa.Builtin); isB && bi.Name() == "delete" && p.isFieldLoad(call.Call.Args[0], "inputs") {
+						// unconditional: the removal is not skipped on any path through the handler
+						if len(InstrDomEdges(call)) != 0 {
+							continue
+						}
 						if _, isPar := call.Call.Args[1].(*ssa.Parameter); isPar {
 							// reached from the inputRmvs clause with the received value
 							for _, cs := range p.CallSites(fn) {
@@ -844,7 +848,7 @@ func runC17(c *Ctx) {
 			}
 		}
 	}
-	r.Check(okDel, "R3", pr.key+"#delete", "-", "RemoveInput(p) => delete(inputs, p)", "the removal command does not delete the input-table entry of the removed priority: its channel keeps being read")
+	r.Check(okDel, "R3", pr.key+"#delete", "-", "RemoveInput(p) => delete(inputs, p)", "the removal command does not (unconditionally) delete the input-table entry of the removed priority: its channel keeps being read")
 	// R3b: fresh lookup: the channel that is read was looked up in the input table, and the table
 	// cannot have been written between that lookup and the receive (the lookup may be hoisted out
 	// of a loop that does not touch the table; it may not survive a point where a command is applied)
